@@ -240,6 +240,11 @@ func runC14(c map[string]string, dir string, thorough bool) map[string]interface
 			var accepted []string
 			variants := map[string][]byte{"one character changed": append(append([]byte(nil), pw[:len(pw)-1]...), pw[len(pw)-1]^1),
 				"case changed": []byte(strings.ToUpper(string(pw))), "truncated": pw[:len(pw)-1], "extended": append(append([]byte(nil), pw...), 'x'), "empty": []byte{}}
+			// a history on one file: the right password, every other password, the right password again
+			var probs []string
+			if k2, err := x509.ReadPrivateKeyFromPem(b, pw); err != nil || !samePriv(k, k2) {
+				probs = append(probs, fmt.Sprintf("the right password does not open the key (%v)", err))
+			}
 			for name, v := range variants {
 				if bytes.Equal(v, pw) {
 					continue
@@ -248,6 +253,27 @@ func runC14(c map[string]string, dir string, thorough bool) map[string]interface
 					accepted = append(accepted, fmt.Sprintf("%s (same key: %v)", name, samePriv(k, k2)))
 				}
 			}
+			if k2, err := x509.ReadPrivateKeyFromPem(b, pw); err != nil || !samePriv(k, k2) {
+				probs = append(probs, fmt.Sprintf("after attempts with other passwords the right password no longer opens the key (%v)", err))
+			}
+			// and on a fresh file (new salt) of the same key: other passwords first, then the right one
+			b2, err := x509.WritePrivateKeyToPem(k, pw)
+			if err != nil {
+				probs = append(probs, err.Error())
+			} else {
+				for name, v := range variants {
+					if bytes.Equal(v, pw) {
+						continue
+					}
+					if k2, err := x509.ReadPrivateKeyFromPem(b2, v); err == nil {
+						accepted = append(accepted, fmt.Sprintf("%s, on a file not opened before (same key: %v)", name, samePriv(k, k2)))
+					}
+				}
+				if k2, err := x509.ReadPrivateKeyFromPem(b2, pw); err != nil || !samePriv(k, k2) {
+					probs = append(probs, fmt.Sprintf("the right password does not open a file on which other passwords were tried first (%v)", err))
+				}
+			}
+			got["problems"] = probs
 			got["accepted"] = accepted
 		case "loader":
 			p, err := loadAdvPKI()
@@ -274,6 +300,14 @@ func runC14(c map[string]string, dir string, thorough bool) map[string]interface
 				sk, ek = ek, sk
 			}
 			scert, ecert := pemCert(sign.Certificate[0]), pemCert(enc.Certificate[0])
+			if c["shape"] == "match_chain" || c["shape"] == "chain_cakey" {
+				// leaf first, then the CA that issued it
+				scert = append(append([]byte(nil), scert...), pemCert(p.ca.der)...)
+				ecert = append(append([]byte(nil), ecert...), pemCert(p.ca.der)...)
+				if c["shape"] == "chain_cakey" {
+					sk = keyPem(p.ca.key)
+				}
+			}
 			w := func(name string, b []byte) string {
 				f := filepath.Join(dir, name)
 				os.WriteFile(f, b, 0600)
